@@ -208,4 +208,36 @@ theorem getD_fwdBins_perm (img d : Array K) {l l' : List Bin} (hp : l.Perm l') (
   · have hj' : j ∉ l'.map idx := fun h => hj ((hp.map idx).mem_iff.mpr h)
     rw [getD_fwdBins_not_mem _ _ _ _ _ _ _ hj, getD_fwdBins_not_mem _ _ _ _ _ _ _ hj']
 
+/-! ### an executable check of `RelPartition` (used for the non-vacuity examples) -/
+
+/-- executable form of `RelPartition` -/
+def relPartitionCheck (rel : Int → Int → List (Int × Int)) (r : Range) : Bool :=
+  (rangePositions r).all fun p =>
+    (cls rel r p).contains p && decide (cls rel r p).Nodup &&
+      (cls rel r p).all fun q => (cls rel r q).all (fun q' => (cls rel r p).contains q') && (cls rel r p).all fun q' => (cls rel r q).contains q'
+
+theorem relPartition_of_check (rel : Int → Int → List (Int × Int)) (r : Range) (h : relPartitionCheck rel r = true) :
+    RelPartition rel r := by
+  unfold relPartitionCheck at h
+  rw [List.all_eq_true] at h
+  refine ⟨?_, ?_, ?_⟩
+  · intro p hp
+    have := h p ((mem_rangePositions r p).mpr hp)
+    simp only [Bool.and_eq_true, List.contains_iff_mem, decide_eq_true_eq] at this
+    exact this.1.1
+  · intro p hp
+    have := h p ((mem_rangePositions r p).mpr hp)
+    simp only [Bool.and_eq_true, decide_eq_true_eq] at this
+    exact this.1.2
+  · intro p q hp hq q'
+    have := h p ((mem_rangePositions r p).mpr hp)
+    simp only [Bool.and_eq_true, List.all_eq_true, List.contains_iff_mem] at this
+    have hq2 := this.2 q hq
+    exact ⟨fun h' => hq2.1 q' h', fun h' => hq2.2 q' h'⟩
+
+/-- the related-position lists of a cylindrical scanner with `do_symmetry_shift_z` and `do_symmetry_swap_s`
+    (`get_related_bins_factorised`: every axial position of the range, tangential positions `t` and `-t`) -/
+def relCyl (r : Range) : Int → Int → List (Int × Int) := fun _ t =>
+  (irange r.minA r.maxA).flatMap fun a => if t = 0 then [(a, t)] else [(a, |t|), (a, -|t|)]
+
 end StirVerif.C04
